@@ -288,6 +288,37 @@ func (w *worker) verifyModel(d *dataset) bool {
 	return true
 }
 
+// idxDown / idxUp re-state the documented float64 -> float32 "outward" rounding of
+// index rectangles (multiply by 1 -+ 2^-23 when the nearest float32 is on the wrong
+// side). They are used only to NAME a scenario class, never for a verdict: for a
+// latitude between 0.42 m and 0.85 m from a pole the multiplication overshoots by
+// two float32 steps and the index rectangle reaches beyond +-90 degrees.
+func idxDown(d float64) float32 {
+	f := float32(d)
+	if float64(f) > d {
+		if d < 0 {
+			f = float32(d * (1.0 + 1.0/8388608.0))
+		} else {
+			f = float32(d * (1.0 - 1.0/8388608.0))
+		}
+	}
+	return f
+}
+
+func idxUp(d float64) float32 {
+	f := float32(d)
+	if float64(f) < d {
+		if d < 0 {
+			f = float32(d * (1.0 - 1.0/8388608.0))
+		} else {
+			f = float32(d * (1.0 + 1.0/8388608.0))
+		}
+	}
+	return f
+}
+
+func beyondPole(r geo.Rect) bool { return idxDown(r.MinLat) < -90 || idxUp(r.MaxLat) > 90 }
+
 type hit struct {
 	id     string
 	rep    float64 // reported distance
@@ -517,11 +548,21 @@ func (w *worker) runDataset(idx int) {
 		ctx.Count("objkind_"+o.Kind, 1)
 	}
 	ctx.Count("datasets", 1)
+	poleOverflow := 0
+	for _, o := range sp {
+		if beyondPole(o.Rect) {
+			poleOverflow++
+		}
+	}
+	if poleOverflow > 0 {
+		ctx.Count("datasets_with_index_rect_beyond_pole", 1)
+	}
 	ctx.Count("region_"+reg.Name, 1)
 	if len(sp) > 64 {
 		ctx.Count("datasets_multilevel_tree", 1)
 	}
 	nq := ctx.Pick(40, 100)
+	reported := 0
 	for qi := 0; qi < nq; qi++ {
 		q := genQuery(rng, d, sp)
 		odist := make(map[string]float64, len(sp))
@@ -582,6 +623,12 @@ func (w *worker) runDataset(idx int) {
 		ctx.Count("queries_"+mode, 1)
 		ctx.Count("qpoint_"+q.kind, 1)
 		if key, what := judge(q, sp, byID, odist, hits); key != "" {
+			if poleOverflow > 0 && (key == "nearby:order" || key == "nearby:knn-missed" || key == "nearby:radius-missed") {
+				// scenario class: the collection holds objects whose float32 index rectangle reaches
+				// beyond a pole; the best-first traversal's lower bound is then not a lower bound
+				key = "nearby:index-lat-beyond-pole"
+				what += fmt.Sprintf(" [%d objects of the collection have an index rectangle beyond +-90 deg latitude]", poleOverflow)
+			}
 			var got [][2]string
 			for _, h := range hits {
 				got = append(got, [2]string{h.id, geo.F(h.rep)})
@@ -592,6 +639,10 @@ func (w *worker) runDataset(idx int) {
 			exp := map[string]float64{}
 			for _, h := range hits {
 				exp[h.id] = h.oracle
+			}
+			reported++
+			if reported > 2 {
+				continue // at most two reports per dataset
 			}
 			ctx.Violation(key, fmt.Sprintf("dataset %d (%s, %d spatial objects) query %q: %s", idx, reg.Name, len(sp), args, what),
 				map[string]any{"commands": append(append([][]string{}, d.log...), args), "query": args, "got_first60": got, "oracle_distance_of_returned": exp, "oracle": "haversine on R=6371e3 to the bounding rectangle, band rel 1e-6 + 1e-6 m"})
